@@ -105,6 +105,23 @@ def run(R):
             crafted.append((cls, r[0], r[1]))
             add("crafted:" + cls, r[0], r[1], [], "crafted")
             add("crafted:" + cls, r[0], r[1], [7], "crafted-split")
+    # the object computes the tag of what it was fed since its creation OR its last reset, and reads it out any number of times: a second message
+    # after reset whose tail is shorter than the first one's (a final block padded with what the staging buffer still holds), with and without a
+    # result in between; the result read twice through both accessors
+    for j, (t1, t2) in enumerate([(15, 1), (9, 3), (14, 13), (5, 4), (15, 14), (7, 0)] + ([(a, b) for a in range(1, 16) for b in range(0, a)] if thorough else [])):
+        key = rnd("reuse%d" % j)
+        m1 = msgstream[100:100 + 16 * (j % 3) + t1]
+        m2 = msgstream[300:300 + 16 * ((j + 1) % 3) + t2]
+        for between in ([], [{"op": "result", "x": 1}]):
+            ev = [{"op": "new"}, {"op": "input", "x": 1, "data": m1}] + between + [{"op": "reset", "x": 1}, {"op": "input", "x": 1, "data": m2}, {"op": "raw_result", "x": 1},
+                  {"op": "result", "x": 1}, {"op": "raw_result", "x": 1}]
+            hs.append({"id": R.next_id(), "cls": "mac", "mac": "poly1305", "key": key, "ev": ev})
+            R.count(("reuse", t1, t2, len(between)))
+    for j, n in enumerate([0, 16, 5, 32, 33]):
+        for first, second in (("result", "result"), ("raw_result", "result"), ("result", "raw_result")):
+            hs.append({"id": R.next_id(), "cls": "mac", "mac": "poly1305", "key": rnd("twice%d" % j),
+                       "ev": [{"op": "new"}, {"op": "input", "x": 1, "data": msgstream[:n]}, {"op": first, "x": 1}, {"op": second, "x": 1}]})
+            R.count(("twice", n, first, second))
     # the same classes under keys of full size (every limb of r in play): the block before last is solved backwards from the final accumulator wanted,
     # for messages of two to four blocks with and without a trailing block
     for cls in polycraft.GENERIC_CLASSES:
